@@ -1,13 +1,56 @@
-/- Driver for the talk engine (ops whose name starts with `t`). -/
+/- Driver for the talk engine (ops whose name starts with `t`): life cycle of `TalkRequest`
+objects (`Model/Service.lean`, section TALK) on top of the service model. -/
 import Driver.Common
+import Driver.ServiceDrv
 namespace Discv5.Driver
+namespace TalkD
+open Discv5.Svc SvcD
 
 structure TalkSt where
-  dummy : Unit := ()
+  /-- request objects held by the application (`none` once consumed) -/
+  reqs : List (Option TalkReq) := []
+  /-- the service runs and the handler side of the channel is alive -/
+  running : Bool := false
+  started : Bool := false
 
-/-- One op of the talk engine: full token list (op name first) → new state and reply line. -/
+def showResps (outs : List Out) : List String :=
+  outs.filterMap fun
+    | .response p a r b => some s!"resp:{id8 p}@{showAddr a}:{hexOrDash r}:{showRespBody b}"
+    | _ => none
+
+def line (items : List String) : String := if items.isEmpty then "-" else " ".intercalate items
+
 def talkStep (st : TalkSt) (toks : List String) : TalkSt × String :=
   match toks with
+  | ["tnop"] => (st, "noop")
+  | ["tnew"] => ({ reqs := [], running := true, started := true }, "ok")
+  | ["tdeliver", peer, addr, rid, _proto, _payload] =>
+    if !st.started then (st, "noop") else
+    if !st.running then (st, "-") else
+    -- `handle_rpc_request`: the request becomes an object handed to the application
+    let t : TalkReq := { rid := bytesOf rid, peer := sKey peer, addr := parseAddr addr }
+    let st' := { st with reqs := st.reqs ++ [some t] }
+    (st', s!"talkreq:#{st'.reqs.length}:{hexOrDash t.rid}")
+  | ["trespond", i, payload] =>
+    match st.reqs[nat! i - 1]? with
+    | some (some t) =>
+      let (r, outs) := t.life st.running (.respond (bytesOf payload))
+      let rs := match r with
+        | some .ok => "ok" | some .channelClosed => "err" | some .panic => "panic" | none => "-"
+      ({ st with reqs := st.reqs.set (nat! i - 1) none }, s!"res={rs} {line (showResps outs)}")
+    | _ => (st, "noop")
+  | ["tdrop", i] =>
+    match st.reqs[nat! i - 1]? with
+    | some (some t) =>
+      let (_, outs) := t.life st.running .dropOnly
+      ({ st with reqs := st.reqs.set (nat! i - 1) none }, line (showResps outs))
+    | _ => (st, "noop")
+  | ["tshutdown"] => ({ st with running := false }, "ok")
   | _ => (st, "bad-op")
+
+end TalkD
+
+abbrev TalkSt := TalkD.TalkSt
+def talkStep : TalkSt → List String → TalkSt × String := TalkD.talkStep
 
 end Discv5.Driver
